@@ -870,6 +870,9 @@ func (multi *MultiEpoch) processSlotTransactions(
 						txResp.Transaction.Transaction = tx.Transaction
 						txResp.Transaction.Meta = tx.Meta
 						txResp.Transaction.Index = tx.Index
+						// say where the transaction is archived, as the address-index path below does
+						txResp.Slot = slot
+						txResp.Index = tx.Index
 
 						epochNumber := slottools.CalcEpochForSlot(slot)
 						epochHandler, err := multi.GetEpoch(epochNumber)
